@@ -49,7 +49,13 @@ func dijkstraFrom(u, t graph.Node, g traverse.Graph) Shortest {
 		}
 		path = newShortestFrom(u, graph.NodesOf(h.Nodes()))
 	} else {
-		if g.From(u.ID()) == graph.Empty {
+		if h, ok := g.(graph.Graph); ok {
+			// A node of the graph without successors still
+			// has the trivial path to itself.
+			if h.Node(u.ID()) == nil {
+				return Shortest{from: u}
+			}
+		} else if g.From(u.ID()) == graph.Empty {
 			return Shortest{from: u}
 		}
 		path = newShortestFrom(u, []graph.Node{u})
